@@ -72,6 +72,10 @@ for nidl in (True, False):
     beh("f05_reused_nonce" + ("n" if nidl else ""), ["C05"], [A("k1", "e1", "n1"), NID("k1"), G("k1", "k1", hasState=True, ssig="k1"), dict(G("k1", "k1", hasState=True, ssig="kx"), reuse=True),
                                                          dict(G("k1", "k1", hasState=True, ssig="none"), reuse=True), dict(G("k1", "k1"), reuse=True), R("k1"), dict(G("k1", "k1"), reuse=True),
                                                          A("k2", "e1", "n2"), NID("k2"), G("k2", "k2", "N1"), dict(G("k2", "k2", "N1", hasState=True, ssig="kx"), reuse=True)], nidl=nidl)
+# node ids that differ only in letter case, and a trace-level logger among the caller's options
+for so in (False, True):
+    beh("f05_nid_case" + ("so" if so else ""), ["C05"], [A("k1", "e1", "n1"), A("k2", "e1", "n2"), NID("k1", "N1"), NID("k2", "n1"), G("k1", "k1", "N1"), G("k2", "k2", "n1"), G("k1", "k2", "N1"), G("k2", "k1", "n1"),
+                                                         G("k1", "k2", "N1", hasState=True, ssig="k2"), dict(G("k2", "k1", "N1"), lg="trace"), dict(G("k1", "k1", "N1"), lg="trace"), dict(G("k1", "k2", "n1"), lg="trace")], nidl=True, so=so)
 # node ids one of which is a prefix of the other, on the back end that looks records up by node id itself
 beh("f05_nid_prefix", ["C05"], [A("k1", "e1", "n1"), A("k2", "e1", "n2"), NID("k1", "N1"), NID("k2", "N10"), G("k1", "k1", "N1"), G("k2", "k2", "N10"), G("k1", "k2", "N1"), G("k2", "k2", "N1"), G("k2", "k1", "N10"),
                                 G("k1", "k2", "N1", hasState=True, ssig="k2")], nidl=True, so=True)
